@@ -28,6 +28,14 @@ prop("C02",
      residual="fidelity of re-application for diffs replayed through text (set_user_input etc.) is outside")
 
 
+prop("C29",
+     units=["cols"],
+     level="proof",
+     claim="column setters change exactly the named attribute of exactly that column, for any well-formed descriptor layout",
+     assumptions=["A-itermut-drop (units/std_iter.rs)", "f64 `/`,`*`,`<`,`!=` are vstd's uninterpreted relations; their preconditions assumed (units/std_f64.rs)"],
+     residual="row attributes pending; Model-level delegates")
+
+
 def evidence(pid, tier, seed, results, scan_results, kani_results, violations, known_hits, undecided, wall):
     P = PROPS[pid]
     obligations = 0
